@@ -12,4 +12,5 @@ CONSTANTS
   Bug = {}
 INVARIANTS TypeOK PresentsLastCookie ContactIsGrant HelloCarriesOwnId AtMostOneReply ReplyMatchesOutcome EveryRequestAnswered ReplyOnOwnOrLaterConn WritesSerialised NoWedge StoppedClean OneConnPerBroker
 
+PROPERTY KeepsRegistration
 CHECK_DEADLOCK FALSE
